@@ -297,13 +297,53 @@ mod verif_kani {
     #[kani::unwind(10)]
     fn pm_set_range_w3() { set_range_step(3); }
 
-    // ---- remove_indices (private), m concrete, indices sorted as override_range passes them ----------------------------
-    fn idxs(m: usize) -> ([usize; 3], Vec<usize>) {
-        let a: [usize; 3] = [kani::any(), kani::any(), kani::any()];
+    // ---- enumeration of positions ----------------------------------------------------------------------------------
+    // `Vec::with_capacity(end - start)` / `vec![d; max_index - min_index]` with capacities derived from SYMBOLIC positions
+    // exhaust CBMC (symbolic-size allocations), so wherever the real code sizes a buffer from positions the positions
+    // are enumerated: the step runs once per concrete tuple, selected by a symbolic choice.  Positions range over
+    // 0..=LIM: 0..=3 inside the tree, 4 (= capacity) stands for every position outside it.
+    const LIM: usize = 4;
+    #[derive(Clone, Copy, PartialEq, Eq)]
+    enum Class { Values, RemovalAfterRange, RemovalInsideRange, RemovalOutsideTree }
+    #[derive(Clone, Copy)]
+    enum Kind { RemoveIndices, Override, RmAndSet(Class) }
+    // n written leaves, m removal positions; `with_start`: enumerate `start` too; `sorted`: ascending removals only
+    fn enumerate(kind: Kind, n: usize, m: usize, with_start: bool, sorted: bool) {
+        let cs: usize = kani::any();
+        let c: [usize; 3] = [kani::any(), kani::any(), kani::any()];
+        let s_hi = if with_start { LIM } else { 0 };
+        let b_hi = if m >= 2 { LIM } else { 0 };
+        let d_hi = if m >= 3 { LIM } else { 0 };
+        let mut st = 0;
+        while st <= s_hi {
+            let mut a = 0;
+            while a <= LIM {
+                let mut b = if sorted && m >= 2 { a } else { 0 };
+                while b <= b_hi {
+                    let mut d = if sorted && m >= 3 { b } else { 0 };
+                    while d <= d_hi {
+                        if cs == st && c[0] == a && c[1] == b && c[2] == d {
+                            match kind {
+                                Kind::RemoveIndices => remove_indices_at([a, b, d], m),
+                                Kind::Override => override_range_at(st, n, [a, b, d], m),
+                                Kind::RmAndSet(class) => rm_and_set_at(st, n, [a, b, d], m, class),
+                            }
+                            return;
+                        }
+                        d += 1;
+                    }
+                    b += 1;
+                }
+                a += 1;
+            }
+            st += 1;
+        }
+    }
+    fn idx_vec(ra: &[usize; 3], m: usize) -> Vec<usize> {
         let mut v = Vec::new();
         let mut k = 0;
-        while k < m { v.push(a[k]); k += 1; }
-        (a, v)
+        while k < m { v.push(ra[k]); k += 1; }
+        v
     }
     fn reset_all(old: &St, ra: &[usize; 3], m: usize) -> St {
         let mut e = *old;
@@ -311,12 +351,11 @@ mod verif_kani {
         while k < m { if ra[k] < CAP { e.leaves[ra[k]] = leaf(0); e.flags[ra[k]] = 0; } k += 1; }
         e
     }
-    fn remove_indices_step(m: usize) {
+
+    // ---- remove_indices (private), m sorted removal positions as override_range passes them -----------------------------
+    fn remove_indices_at(ra: [usize; 3], m: usize) {
         let (mut t, old) = any_wf();
-        let (ra, rv) = idxs(m);
-        let mut k = 1;
-        while k < m { kani::assume(ra[k - 1] <= ra[k]); k += 1; }
-        let r = t.remove_indices(&rv);
+        let r = t.remove_indices(&idx_vec(&ra, m));
         if ra[m - 1] >= old.mark {
             kani::assert(r.is_err() && unchanged(&t, &old), "remove_indices/removal-beyond-mark-rejected-changes-nothing");
         } else {
@@ -332,43 +371,31 @@ mod verif_kani {
         }
     }
     #[kani::proof]
-    #[kani::unwind(10)]
-    fn pm_remove_indices_r2() { remove_indices_step(2); }
+    #[kani::unwind(7)]
+    fn pm_remove_indices_r2() { enumerate(Kind::RemoveIndices, 0, 2, false, true); }
     #[kani::proof]
-    #[kani::unwind(10)]
-    fn pm_remove_indices_r3() { remove_indices_step(3); }
+    #[kani::unwind(7)]
+    fn pm_remove_indices_r3() { enumerate(Kind::RemoveIndices, 0, 3, false, true); }
 
     // ---- override_range: the dispatch shapes (n written leaves, m removal indices) ------------------------------------
     // contract of specs/pm_adapter.rs.in; in addition, with the ideal (never failing) storage every Err leaves the
     // adapter unchanged ("batch-error-changes-nothing").
-    fn override_range_step(n: usize, m: usize, bounded_positions: bool) {
-        let (mut t, old) = any_wf();
-        let start: usize = kani::any();
-        kani::assume(start <= usize::MAX / 2);
-        let (va, v) = vals(n);
-        let (ra, rv) = idxs(m);
-        if bounded_positions {
-            // the combined path allocates `start + n - min(removals)` slots: keep positions small
-            kani::assume(start <= 2 * CAP);
-            let mut k = 0;
-            while k < m { kani::assume(ra[k] <= 2 * CAP); k += 1; }
-        }
-        let r = t.override_range(start, v.into_iter(), rv.into_iter());
+    fn override_range_check(t: &PmTree, old: &St, r: &Result<()>, start: usize, n: usize, va: &[Fr; 3], ra: &[usize; 3], m: usize) {
         let mut out_of_range = n > 0 && (start > CAP || n > CAP - start);
         let mut k = 0;
         while k < m { if ra[k] >= CAP { out_of_range = true; } k += 1; }
         let which: u8 = kani::any();
         if n == 0 && m == 0 {
-            kani::assert(r.is_err() && unchanged(&t, &old), "override_range/empty-batch-rejected-changes-nothing");
+            kani::assert(r.is_err() && unchanged(t, old), "override_range/empty-batch-rejected-changes-nothing");
         } else if out_of_range {
-            kani::assert(r.is_err() && unchanged(&t, &old), "override_range/batch-rejected-changes-nothing");
+            kani::assert(r.is_err() && unchanged(t, old), "override_range/batch-rejected-changes-nothing");
         } else if r.is_err() {
-            kani::assert(unchanged(&t, &old), "override_range/batch-error-changes-nothing");
+            kani::assert(unchanged(t, old), "override_range/batch-error-changes-nothing");
         } else {
-            let s = observe(&t);
+            let s = observe(t);
             kani::assert(s.is_some(), "override_range/batch-keeps-wf");
             let s = s.unwrap();
-            let mut e = reset_all(&old, &ra, m);
+            let mut e = reset_all(old, ra, m);
             let mut k = 0;
             while k < n { e.leaves[start + k] = va[k]; e.flags[start + k] = 1; k += 1; }
             e.mark = if n > 0 { std::cmp::max(old.mark, start + n) } else { old.mark };
@@ -378,51 +405,63 @@ mod verif_kani {
             if which == 3 { kani::assert(s.mark == e.mark, "override_range/batch-high-water-mark"); }
         }
     }
+    // shapes whose code path sizes no buffer from positions: start and the removal position fully symbolic
+    fn override_range_step(n: usize, m: usize) {
+        let (mut t, old) = any_wf();
+        let start: usize = kani::any();
+        kani::assume(start <= usize::MAX / 2);
+        let (va, v) = vals(n);
+        let ra: [usize; 3] = [kani::any(), kani::any(), kani::any()];
+        let r = t.override_range(start, v.into_iter(), idx_vec(&ra, m).into_iter());
+        override_range_check(&t, &old, &r, start, n, &va, &ra, m);
+    }
+    // removal-only batches (-> sort + remove_indices): enumerated positions, any order
+    fn override_range_at(start: usize, n: usize, ra: [usize; 3], m: usize) {
+        let (mut t, old) = any_wf();
+        let (va, v) = vals(n);
+        let r = t.override_range(start, v.into_iter(), idx_vec(&ra, m).into_iter());
+        override_range_check(&t, &old, &r, start, n, &va, &ra, m);
+    }
     #[kani::proof]
     #[kani::unwind(10)]
-    fn pm_override_w0_r0() { override_range_step(0, 0, false); }
+    fn pm_override_w0_r0() { override_range_step(0, 0); }
     #[kani::proof]
     #[kani::unwind(10)]
-    fn pm_override_w1_r0() { override_range_step(1, 0, false); }
+    fn pm_override_w1_r0() { override_range_step(1, 0); }
     #[kani::proof]
     #[kani::unwind(10)]
-    fn pm_override_w0_r1() { override_range_step(0, 1, false); }
+    fn pm_override_w0_r1() { override_range_step(0, 1); }
     #[kani::proof]
     #[kani::unwind(10)]
-    fn pm_override_w2_r0() { override_range_step(2, 0, false); }
+    fn pm_override_w2_r0() { override_range_step(2, 0); }
     #[kani::proof]
-    #[kani::unwind(10)]
-    fn pm_override_w0_r2() { override_range_step(0, 2, false); }
+    #[kani::unwind(7)]
+    fn pm_override_w0_r2() { enumerate(Kind::Override, 0, 2, false, false); }
 
     // ---- override_range with both writes and removals = remove_indices_and_set_leaves: KNOWN FINDINGS -------------------
     // (not fixed in /repo: pinned by the existing test rln::poseidon_tree::test::test_get_empty_leaves_indices).
     // The value clauses are checked where the function does not crash (every removal inside the tree and the first
     // removal not after `start`); each crash class has its own harness whose reachable panic is reported under the
-    // Verus clause that guards it (units.json "panic_clause").
-    #[derive(Clone, Copy, PartialEq, Eq)]
-    enum Class { Values, RemovalAfterRange, RemovalInsideRange, RemovalOutsideTree }
-    fn rm_and_set_step(n: usize, m: usize, class: Class) {
-        let (mut t, old) = any_wf();
-        let start: usize = kani::any();
-        kani::assume(start <= 2 * CAP);
-        let (va, v) = vals(n);
-        let (ra, rv) = idxs(m);
+    // Verus clause that guards it (units.json "panic_clause").  Positions are enumerated (see `enumerate`).
+    fn rm_and_set_at(start: usize, n: usize, ra: [usize; 3], m: usize, class: Class) {
         let mut min = usize::MAX;
         let mut outside = false;
         let mut k = 0;
         while k < m {
-            kani::assume(ra[k] <= 2 * CAP);
             if ra[k] < min { min = ra[k]; }
             if ra[k] >= CAP { outside = true; }
             k += 1;
         }
-        match class {
-            Class::Values => kani::assume(min <= start && !outside),
-            Class::RemovalAfterRange => kani::assume(min > start + n),
-            Class::RemovalInsideRange => kani::assume(start < min && min <= start + n),
-            Class::RemovalOutsideTree => kani::assume(min <= start && outside),
-        }
-        let r = t.override_range(start, v.into_iter(), rv.into_iter());
+        let in_class = match class {
+            Class::Values => min <= start && !outside,
+            Class::RemovalAfterRange => min > start + n,
+            Class::RemovalInsideRange => start < min && min <= start + n,
+            Class::RemovalOutsideTree => min <= start && outside,
+        };
+        if !in_class { return; }
+        let (mut t, old) = any_wf();
+        let (va, v) = vals(n);
+        let r = t.override_range(start, v.into_iter(), idx_vec(&ra, m).into_iter());
         let out_of_range = start > CAP || n > CAP - start || outside;
         let which: u8 = kani::any();
         if out_of_range {
@@ -444,21 +483,19 @@ mod verif_kani {
         }
     }
     #[kani::proof]
-    #[kani::unwind(12)]
-    fn pm_rm_and_set_w1_r1_values() { rm_and_set_step(1, 1, Class::Values); }
+    #[kani::unwind(7)]
+    fn pm_rm_and_set_w1_r1_values() { enumerate(Kind::RmAndSet(Class::Values), 1, 1, true, true); }
     #[kani::proof]
-    #[kani::unwind(12)]
-    fn pm_rm_and_set_w2_r1_values() { rm_and_set_step(2, 1, Class::Values); }
+    #[kani::unwind(7)]
+    fn pm_rm_and_set_w2_r1_values() { enumerate(Kind::RmAndSet(Class::Values), 2, 1, true, true); }
+    // (1 leaf + 2 removals in the Values class was tried: CBMC exhausts 10 GB over the enumeration; not listed)
     #[kani::proof]
-    #[kani::unwind(12)]
-    fn pm_rm_and_set_w1_r2_values() { rm_and_set_step(1, 2, Class::Values); }
+    #[kani::unwind(7)]
+    fn pm_rm_and_set_w1_r1_after_range() { enumerate(Kind::RmAndSet(Class::RemovalAfterRange), 1, 1, true, true); }
     #[kani::proof]
-    #[kani::unwind(12)]
-    fn pm_rm_and_set_w1_r1_after_range() { rm_and_set_step(1, 1, Class::RemovalAfterRange); }
+    #[kani::unwind(7)]
+    fn pm_rm_and_set_w2_r1_inside_range() { enumerate(Kind::RmAndSet(Class::RemovalInsideRange), 2, 1, true, true); }
     #[kani::proof]
-    #[kani::unwind(12)]
-    fn pm_rm_and_set_w2_r1_inside_range() { rm_and_set_step(2, 1, Class::RemovalInsideRange); }
-    #[kani::proof]
-    #[kani::unwind(12)]
-    fn pm_rm_and_set_w1_r2_outside_tree() { rm_and_set_step(1, 2, Class::RemovalOutsideTree); }
+    #[kani::unwind(7)]
+    fn pm_rm_and_set_w1_r2_outside_tree() { enumerate(Kind::RmAndSet(Class::RemovalOutsideTree), 1, 2, true, true); }
 }
